@@ -81,6 +81,10 @@ read_ok = (L.mixed_links is b1) and (L.cycles is b2) and (L.multipath is b3) and
 read_ok = read_ok and (view() == want)
 # "cannot be changed afterwards": not through the caller's own dictionary either
 if wl is not None:
+    if with_wl == 1:
+        # ... neither through an inner dictionary the caller still holds
+        wl[Vertex][Vertex] = UnDirectedEdge
+        read_ok = read_ok and (view() == want)
     wl[Vertex] = {Vertex: UnDirectedEdge}
     read_ok = read_ok and (view() == want)
 rejected = 0
